@@ -5,12 +5,14 @@ From Coq Require Import List QArith Qabs Bool.
 Import ListNotations.
 
 Record vopts := { v_dt_init : Q; v_dt_max : Q; v_terminal_psi : option Q;
-                  v_mult : Q; v_drag : Q; v_size : Q; v_tol : Q }.
+                  v_mult : Q; v_drag : Q; v_size : Q; v_tol : Q; v_save_every : Q }.
 
 Definition Qltb (a b : Q) : bool := negb (Qle_bool b a).
 
 Definition validate_ok (o : vopts) : bool :=
-  Qle_bool (v_dt_init o) (v_dt_max o)                                   (* not (dt_init > dt_max) *)
+  Qltb 0 (v_dt_init o)                                                  (* dt_init > 0 *)
+  && Qle_bool 1 (v_save_every o)                                        (* save_every >= 1 *)
+  && Qle_bool (v_dt_init o) (v_dt_max o)                                (* not (dt_init > dt_max) *)
   && match v_terminal_psi o with
      | None => true
      | Some p => Qle_bool 0 (Qabs p) && Qle_bool (Qabs p) 1
@@ -33,8 +35,11 @@ Definition accepts_td (f : Q -> list Q) (samples : list Q) : bool := forallb (fu
    in [0, solve_time] (main stage). *)
 Definition qmax (a b : Q) : Q := if Qle_bool a b then b else a.
 Definition sample_tmax (repaired : bool) (solve skip : Q) : Q := if repaired then qmax solve skip else solve.
+(* (as repaired a second time: the start of a stage, t = 0, which the solver always evaluates, and the end of the range are
+   sample times too) *)
 Definition sample_times (repaired : bool) (solve skip : Q) (us : list Q) : list Q :=
-  map (fun u => u * sample_tmax repaired solve skip) us.
+  (if repaired then [0; sample_tmax repaired solve skip] else [])
+  ++ map (fun u => u * sample_tmax repaired solve skip) us.
 Definition used_time (solve skip t : Q) : Prop := 0 <= t /\ (t <= skip \/ t <= solve).
 
 (* ---- order of events in TDGLSolver.__init__ + solve ---- *)
